@@ -4,18 +4,21 @@ import Enc.Lemmas.JsonWs
 # JSON (C05), part 4b: `parseValue` / `parseArray` / `parseObject` against `value` / `elements` / `members`
 
 `parseValue_toOpt`: with flags sound before every quotation mark, model fuel `≥ 3·|b|`, grammar fuel `≥ 2·|b|` and
-nesting budget `≥ |b|`, `toOpt (parseValue fl f b) = value f' d b`. Five statements (`VOk`, `AOk`, `ALOk`, `OOk`,
-`OLOk`) go through one induction on the model's fuel; the grammar's fuel and depth are universally quantified inside.
+`depth ≤ maxNestingDepth`, `toOpt (parseValue fl depth f b) = value f' (maxNestingDepth - depth) b`: the model's
+nesting counter (counting up from 0, refusing to enter an array or object at depth 10000) is exactly the grammar's
+nesting budget (counting down from 10000, refusing at 0). Five statements (`VOk`, `AOk`, `ALOk`, `OOk`, `OLOk`) go
+through one induction on the model's fuel; the depth and the grammar's fuel are universally quantified inside.
 -/
 namespace Enc.Lemmas.JsonValue
 open Enc Enc.Model.Json Enc.Lemmas.JsonString Enc.Lemmas.JsonGrammar
 open Enc.Spec.Json (ws value elements members lit)
 
-theorem parseValue_nil (fl : PFlags) (f : Nat) : parseValue fl f [] = .err true := by cases f <;> simp [parseValue]
-theorem parseValue_succ_cons (fl : PFlags) (f : Nat) (c : UInt8) (r : Bytes) :
-    parseValue fl (f + 1) (c :: r) =
-      if c == 0x7b then parseObject fl f (c :: r)
-      else if c == 0x5b then parseArray fl f (c :: r)
+theorem parseValue_nil (fl : PFlags) (dp f : Nat) : parseValue fl dp f [] = .err true := by
+  cases f <;> simp [parseValue]
+theorem parseValue_succ_cons (fl : PFlags) (dp f : Nat) (c : UInt8) (r : Bytes) :
+    parseValue fl dp (f + 1) (c :: r) =
+      if c == 0x7b then parseObject fl dp f (c :: r)
+      else if c == 0x5b then parseArray fl dp f (c :: r)
       else if c == 0x22 then parseString fl (c :: r)
       else if c == 0x6e then parseLit (c :: r) [0x6e, 0x75, 0x6c, 0x6c] .null
       else if c == 0x74 then parseLit (c :: r) [0x74, 0x72, 0x75, 0x65] .true_
@@ -24,19 +27,29 @@ theorem parseValue_succ_cons (fl : PFlags) (f : Nat) (c : UInt8) (r : Bytes) :
       else .err false := by
   rw [parseValue]
 
-theorem parseArray_succ_cons (fl : PFlags) (f : Nat) (c : UInt8) (rest : Bytes) :
-    parseArray fl (f + 1) (c :: rest) = if rest = [] then .err true else arrayLoop fl f rest 0 := by
+/-- `parseArray` on `[` followed by `rest`: too short, nesting refused (a syntax error), or the element loop one level
+deeper -/
+theorem parseArray_succ_cons (fl : PFlags) (dp f : Nat) (c : UInt8) (rest : Bytes) :
+    parseArray fl dp (f + 1) (c :: rest) =
+      if rest = [] then .err true else if nestOK dp then arrayLoop fl (dp + 1) f rest 0 else .err false := by
   rw [parseArray]
   cases rest with
   | nil => simp
-  | cons x t => simp; intro h; omega
+  | cons x t =>
+    have h : ¬ (c :: x :: t).length < 2 := by simp
+    simp only [h, if_false, reduceCtorEq]
+    cases nestOK dp <;> rfl
 
-theorem parseObject_succ_cons (fl : PFlags) (f : Nat) (c : UInt8) (rest : Bytes) :
-    parseObject fl (f + 1) (c :: rest) = if rest = [] then .err true else objectLoop fl f rest 0 := by
+theorem parseObject_succ_cons (fl : PFlags) (dp f : Nat) (c : UInt8) (rest : Bytes) :
+    parseObject fl dp (f + 1) (c :: rest) =
+      if rest = [] then .err true else if nestOK dp then objectLoop fl (dp + 1) f rest 0 else .err false := by
   rw [parseObject]
   cases rest with
   | nil => simp
-  | cons x t => simp; intro h; omega
+  | cons x t =>
+    have h : ¬ (c :: x :: t).length < 2 := by simp
+    simp only [h, if_false, reduceCtorEq]
+    cases nestOK dp <;> rfl
 
 /-- what follows the separator check in both loops: parse one item, then loop -/
 def afterSep (close : UInt8) (i : Nat) (sb : Bytes) (c : UInt8) (rest : Bytes) : Option Bytes :=
@@ -56,22 +69,22 @@ def sepK (o : Option Bytes) (M : Bytes → PR) : PR :=
   | some [] => .err true
   | some b3 => M b3
 
-theorem arrayLoop_succ (fl : PFlags) (f : Nat) (b : Bytes) (i : Nat) :
-    arrayLoop fl (f + 1) b i =
+theorem arrayLoop_succ (fl : PFlags) (dp f : Nat) (b : Bytes) (i : Nat) :
+    arrayLoop fl dp (f + 1) b i =
       match skipSpaces b with
       | [] => .err true
       | c :: rest =>
         if c == 0x5d then .ok .array rest
         else
           sepK (afterSep 0x5d i (skipSpaces b) c rest) fun b3 =>
-            match parseValue fl f b3 with
-            | .ok _ r => arrayLoop fl f r (i + 1)
+            match parseValue fl dp f b3 with
+            | .ok _ r => arrayLoop fl dp f r (i + 1)
             | .err e => .err e := by
   rw [arrayLoop]
   rfl
 
-theorem objectLoop_succ (fl : PFlags) (f : Nat) (b : Bytes) (i : Nat) :
-    objectLoop fl (f + 1) b i =
+theorem objectLoop_succ (fl : PFlags) (dp f : Nat) (b : Bytes) (i : Nat) :
+    objectLoop fl dp (f + 1) b i =
       match skipSpaces b with
       | [] => .err true
       | c :: rest =>
@@ -86,8 +99,8 @@ theorem objectLoop_succ (fl : PFlags) (f : Nat) (b : Bytes) (i : Nat) :
               | x :: r2 =>
                 if x != 0x3a then .err false
                 else
-                  match parseValue fl f (skipSpaces r2) with
-                  | .ok _ r3 => objectLoop fl f r3 (i + 1)
+                  match parseValue fl dp f (skipSpaces r2) with
+                  | .ok _ r3 => objectLoop fl dp f r3 (i + 1)
                   | .err e => .err e := by
   rw [objectLoop]
   rfl
@@ -127,24 +140,33 @@ theorem sep_step (close c : UInt8) (rest : Bytes) (i : Nat) (M : Bytes → PR) (
 /-! ### the five statements proved together by induction on the model's fuel
 
 Fuel-sufficiency hypotheses, for an input `b` of length `n`: the model needs `3n` (value) / `3n+1` (loops) / `3n+2`
-(parseArray/parseObject, `n` = length after the bracket), the grammar `2n` (value) / `2n+1` (elements, members) and a
-nesting budget `n`. -/
+(parseArray/parseObject, `n` = length after the bracket), the grammar `2n` (value) / `2n+1` (elements, members).
+Nesting: the model at depth `dp ≤ maxNestingDepth` corresponds to the grammar with budget `maxNestingDepth - dp`. -/
+
+/-- the grammar's nesting budget that corresponds to the model's nesting depth `dp` -/
+abbrev budget (dp : Nat) : Nat := Gen.c_json_maxNestingDepth - dp
+
+theorem maxDepth_eq : Gen.c_json_maxNestingDepth = 10000 := rfl
 
 def VOk (fl : PFlags) (f : Nat) : Prop :=
-  ∀ f' d b, 3 * b.length ≤ f → 2 * b.length ≤ f' → b.length ≤ d → QSound fl b →
-    toOpt (parseValue fl f b) = value f' d b
+  ∀ dp f' b, dp ≤ Gen.c_json_maxNestingDepth → 3 * b.length ≤ f → 2 * b.length ≤ f' → QSound fl b →
+    toOpt (parseValue fl dp f b) = value f' (budget dp) b
 def ALOk (fl : PFlags) (f : Nat) : Prop :=
-  ∀ f' d b i, 3 * b.length + 1 ≤ f → 2 * b.length + 1 ≤ f' → b.length ≤ d → QSound fl b →
-    toOpt (arrayLoop fl f b i) = elements f' d (ws b) (i == 0)
+  ∀ dp f' b i, dp ≤ Gen.c_json_maxNestingDepth → 3 * b.length + 1 ≤ f → 2 * b.length + 1 ≤ f' → QSound fl b →
+    toOpt (arrayLoop fl dp f b i) = elements f' (budget dp) (ws b) (i == 0)
 def OLOk (fl : PFlags) (f : Nat) : Prop :=
-  ∀ f' d b i, 3 * b.length + 1 ≤ f → 2 * b.length + 1 ≤ f' → b.length ≤ d → QSound fl b →
-    toOpt (objectLoop fl f b i) = members f' d (ws b) (i == 0)
+  ∀ dp f' b i, dp ≤ Gen.c_json_maxNestingDepth → 3 * b.length + 1 ≤ f → 2 * b.length + 1 ≤ f' → QSound fl b →
+    toOpt (objectLoop fl dp f b i) = members f' (budget dp) (ws b) (i == 0)
 def AOk (fl : PFlags) (f : Nat) : Prop :=
-  ∀ f' d c rest, 3 * rest.length + 2 ≤ f → 2 * rest.length + 1 ≤ f' → rest.length ≤ d → QSound fl rest →
-    toOpt (parseArray fl f (c :: rest)) = elements f' d (ws rest) true
+  ∀ dp f' c rest, dp ≤ Gen.c_json_maxNestingDepth → 3 * rest.length + 2 ≤ f → 2 * rest.length + 1 ≤ f' →
+    QSound fl rest →
+    toOpt (parseArray fl dp f (c :: rest)) =
+      if budget dp == 0 then none else elements f' (budget dp - 1) (ws rest) true
 def OOk (fl : PFlags) (f : Nat) : Prop :=
-  ∀ f' d c rest, 3 * rest.length + 2 ≤ f → 2 * rest.length + 1 ≤ f' → rest.length ≤ d → QSound fl rest →
-    toOpt (parseObject fl f (c :: rest)) = members f' d (ws rest) true
+  ∀ dp f' c rest, dp ≤ Gen.c_json_maxNestingDepth → 3 * rest.length + 2 ≤ f → 2 * rest.length + 1 ≤ f' →
+    QSound fl rest →
+    toOpt (parseObject fl dp f (c :: rest)) =
+      if budget dp == 0 then none else members f' (budget dp - 1) (ws rest) true
 
 theorem isClose_false {b3 : Bytes} (h : ∀ t, b3 ≠ 0x5d :: t) : isClose b3 = false := by
   cases b3 with
@@ -156,7 +178,7 @@ theorem isClose_false {b3 : Bytes} (h : ∀ t, b3 ≠ 0x5d :: t) : isClose b3 = 
       subst this; exact absurd rfl (h t)
 
 theorem arrayLoop_step {fl : PFlags} {g : Nat} (hV : VOk fl g) (hL : ALOk fl g) : ALOk fl (g + 1) := by
-  intro f' d b i h1 h2 h3 hq
+  intro dp f' b i hdp h1 h2 hq
   obtain ⟨g', rfl⟩ : ∃ g', f' = g' + 1 := ⟨f' - 1, by omega⟩
   rw [arrayLoop_succ, skipSpaces_eq_ws]
   have hwl := ws_length_le b
@@ -170,35 +192,52 @@ theorem arrayLoop_step {fl : PFlags} {g : Nat} (hV : VOk fl g) (hL : ALOk fl g) 
     · simp only [Bool.false_eq_true, if_false]
       have hc' : c ≠ 0x5d := by simpa using hc
       apply sep_step (K := fun b2 => if isClose b2 then none
-        else (value g' d b2).bind fun r2 => elements g' d (ws r2) false) (hc := hc')
+        else (value g' (budget dp) b2).bind fun r2 => elements g' (budget dp) (ws r2) false) (hc := hc')
       · simp [isClose, value_nil]
       · intro t; simp [isClose]
       · intro b3 _ hcl hb3
         simp only [isClose_false hcl, Bool.false_eq_true, if_false]
         have hl3 : b3.length ≤ b.length := Nat.le_trans hb3.length_le hwl
-        have hv := hV g' d b3 (by omega) (by omega) (by omega) (hqw.suffix hb3)
-        cases hp : parseValue fl g b3 with
+        have hv := hV dp g' b3 hdp (by omega) (by omega) (hqw.suffix hb3)
+        cases hp : parseValue fl dp g b3 with
         | err e => rw [hp] at hv; simp only [toOpt_err] at hv ⊢; rw [← hv]; rfl
         | ok k r =>
           rw [hp] at hv; simp only [toOpt_ok] at hv ⊢
           rw [← hv, Option.bind_some]
           have hs := value_sfx hv.symm
           have := hs.2
-          have h := hL g' d r (i + 1) (by omega) (by omega) (by omega) ((hqw.suffix hb3).suffix hs.1)
+          have h := hL dp g' r (i + 1) hdp (by omega) (by omega) ((hqw.suffix hb3).suffix hs.1)
           simpa using h
     · simp only [if_true, toOpt_ok]
 
+/-- the nesting check of the model against the budget check of the grammar -/
+theorem nestOK_iff (dp : Nat) : nestOK dp = !(budget dp == 0) := by
+  simp only [nestOK, budget]
+  rw [Bool.eq_iff_iff]
+  simp
+  omega
+
+theorem budget_succ (dp : Nat) : budget dp - 1 = budget (dp + 1) := by
+  simp only [budget]; omega
+
 theorem parseArray_step {fl : PFlags} {g : Nat} (hL : ALOk fl g) : AOk fl (g + 1) := by
-  intro f' d c rest h1 h2 h3 hq
+  intro dp f' c rest hdp h1 h2 hq
   rw [parseArray_succ_cons]
   split
   · rename_i h; subst h
     obtain ⟨g', rfl⟩ : ∃ g', f' = g' + 1 := ⟨f' - 1, by omega⟩
     simp [ws, elements_nil]
-  · exact hL f' d rest 0 (by omega) h2 h3 hq
+  · rw [nestOK_iff, budget_succ]
+    cases hb : (budget dp == 0)
+    · simp only [Bool.not_false, if_true, Bool.false_eq_true, if_false]
+      have : dp + 1 ≤ Gen.c_json_maxNestingDepth := by
+        have : budget dp ≠ 0 := by simpa using hb
+        simp only [budget] at this; omega
+      exact hL (dp + 1) f' rest 0 this (by omega) h2 hq
+    · simp only [Bool.not_true, Bool.false_eq_true, if_false, if_true]; rfl
 
 theorem objectLoop_step {fl : PFlags} {g : Nat} (hV : VOk fl g) (hL : OLOk fl g) : OLOk fl (g + 1) := by
-  intro f' d b i h1 h2 h3 hq
+  intro dp f' b i hdp h1 h2 hq
   obtain ⟨g', rfl⟩ : ∃ g', f' = g' + 1 := ⟨f' - 1, by omega⟩
   rw [objectLoop_succ, skipSpaces_eq_ws]
   have hwl := ws_length_le b
@@ -212,7 +251,8 @@ theorem objectLoop_step {fl : PFlags} {g : Nat} (hV : VOk fl g) (hL : OLOk fl g)
     · simp only [Bool.false_eq_true, if_false]
       have hc' : c ≠ 0x7d := by simpa using hc
       apply sep_step (K := fun b2 => (Spec.Json.string b2).bind fun r2 =>
-        colonThen (fun r3 => (value g' d (ws r3)).bind fun r4 => members g' d (ws r4) false) (ws r2)) (hc := hc')
+        colonThen (fun r3 => (value g' (budget dp) (ws r3)).bind fun r4 => members g' (budget dp) (ws r4) false) (ws r2))
+        (hc := hc')
       · rfl
       · intro t; rw [string_cons]; rfl
       · intro b3 _ _ hb3
@@ -240,26 +280,33 @@ theorem objectLoop_step {fl : PFlags} {g : Nat} (hV : VOk fl g) (hL : OLOk fl g)
               have hw2 := ws_length_le r2
               simp only [List.length_cons] at hwr
               have hq2 : QSound fl (ws r2) := hqr.tail.suffix (ws_suffix r2)
-              have hv := hV g' d (ws r2) (by omega) (by omega) (by omega) hq2
-              cases hp2 : parseValue fl g (ws r2) with
+              have hv := hV dp g' (ws r2) hdp (by omega) (by omega) hq2
+              cases hp2 : parseValue fl dp g (ws r2) with
               | err e => rw [hp2] at hv; simp only [toOpt_err] at hv ⊢; rw [← hv]; rfl
               | ok k2 r3 =>
                 rw [hp2] at hv; simp only [toOpt_ok] at hv ⊢
                 rw [← hv, Option.bind_some]
                 have hs3 := value_sfx hv.symm
                 have := hs3.2
-                have h := hL g' d r3 (i + 1) (by omega) (by omega) (by omega) (hq2.suffix hs3.1)
+                have h := hL dp g' r3 (i + 1) hdp (by omega) (by omega) (hq2.suffix hs3.1)
                 simpa using h
     · simp only [if_true, toOpt_ok]
 
 theorem parseObject_step {fl : PFlags} {g : Nat} (hL : OLOk fl g) : OOk fl (g + 1) := by
-  intro f' d c rest h1 h2 h3 hq
+  intro dp f' c rest hdp h1 h2 hq
   rw [parseObject_succ_cons]
   split
   · rename_i h; subst h
     obtain ⟨g', rfl⟩ : ∃ g', f' = g' + 1 := ⟨f' - 1, by omega⟩
     simp [ws, members_nil]
-  · exact hL f' d rest 0 (by omega) h2 h3 hq
+  · rw [nestOK_iff, budget_succ]
+    cases hb : (budget dp == 0)
+    · simp only [Bool.not_false, if_true, Bool.false_eq_true, if_false]
+      have : dp + 1 ≤ Gen.c_json_maxNestingDepth := by
+        have : budget dp ≠ 0 := by simpa using hb
+        simp only [budget] at this; omega
+      exact hL (dp + 1) f' rest 0 this (by omega) h2 hq
+    · simp only [Bool.not_true, Bool.false_eq_true, if_false, if_true]; rfl
 
 theorem parseLit_toOpt (b l : Bytes) (k : Kind) : toOpt (parseLit b l k) = lit l b := by
   have e : l.isPrefixOf b = hasPrefix b l := rfl
@@ -275,19 +322,17 @@ theorem parseNumber_bad (c : UInt8) (r : Bytes) (h : (c == 0x2d || isDigit c) = 
   simp [h.1, JsonNumber.numBody, h.2]
 
 theorem value_step {fl : PFlags} {g : Nat} (hA : AOk fl g) (hO : OOk fl g) : VOk fl (g + 1) := by
-  intro f' d b h1 h2 h3 hq
+  intro dp f' b hdp h1 h2 hq
   cases b with
   | nil => rw [parseValue_nil, value_nil]; rfl
   | cons c r =>
-    simp only [List.length_cons] at h1 h2 h3
+    simp only [List.length_cons] at h1 h2
     obtain ⟨g', rfl⟩ : ∃ g', f' = g' + 1 := ⟨f' - 1, by omega⟩
-    have hd : (d == 0) = false := by simp; omega
     rw [parseValue_succ_cons, value_succ_cons]
-    simp only [hd, Bool.false_eq_true, if_false]
     split
-    · exact hO g' (d - 1) c r (by omega) (by omega) (by omega) hq.tail
+    · exact hO dp g' c r hdp (by omega) (by omega) hq.tail
     split
-    · exact hA g' (d - 1) c r (by omega) (by omega) (by omega) hq.tail
+    · exact hA dp g' c r hdp (by omega) (by omega) hq.tail
     split
     · exact parseString_toOpt fl _ hq
     split
@@ -305,22 +350,23 @@ theorem all_ok (fl : PFlags) (f : Nat) : VOk fl f ∧ AOk fl f ∧ ALOk fl f ∧
   induction f with
   | zero =>
     refine ⟨?_, ?_, ?_, ?_, ?_⟩
-    · intro f' d b h1 _ _ _
+    · intro dp f' b _ h1 _ _
       have : b = [] := by cases b with
         | nil => rfl
         | cons => simp at h1
       subst this; rw [parseValue_nil, value_nil]; rfl
-    all_goals (intro f' d; intros; omega)
+    all_goals (intro dp f'; intros; omega)
   | succ g ih =>
     obtain ⟨hV, hA, hAL, hO, hOL⟩ := ih
     exact ⟨value_step hA hO, parseArray_step hAL, arrayLoop_step hV hAL, parseObject_step hOL, objectLoop_step hV hOL⟩
 
-/-- **fuel sufficiency + agreement.** For flags that are sound before every quotation mark of `b`, model fuel
-`≥ 3·|b|`, grammar fuel `≥ 2·|b|` and nesting budget `≥ |b|`: `parseValue` succeeds exactly when the RFC 8259 `value`
-production matches, with the same remainder. -/
-theorem parseValue_toOpt (fl : PFlags) (f f' d : Nat) (b : Bytes)
-    (hf : 3 * b.length ≤ f) (hf' : 2 * b.length ≤ f') (hd : b.length ≤ d) (hq : QSound fl b) :
-    toOpt (parseValue fl f b) = value f' d b :=
-  (all_ok fl f).1 f' d b hf hf' hd hq
+/-- **fuel sufficiency + agreement, with the nesting limit.** For flags that are sound before every quotation mark of
+`b`, model fuel `≥ 3·|b|`, grammar fuel `≥ 2·|b|` and a nesting depth `depth ≤ maxNestingDepth` (= 10000) already
+entered: `parseValue` succeeds exactly when the RFC 8259 `value` production matches within the remaining nesting budget
+`maxNestingDepth - depth`, with the same remainder. -/
+theorem parseValue_toOpt (fl : PFlags) (depth f f' : Nat) (b : Bytes)
+    (hd : depth ≤ Gen.c_json_maxNestingDepth) (hf : 3 * b.length ≤ f) (hf' : 2 * b.length ≤ f') (hq : QSound fl b) :
+    toOpt (parseValue fl depth f b) = value f' (Gen.c_json_maxNestingDepth - depth) b :=
+  (all_ok fl f).1 depth f' b hd hf hf' hq
 
 end Enc.Lemmas.JsonValue
